@@ -200,6 +200,11 @@ func RunX(c XCase, st *XStats) *ev.Failure {
 				delete(updated, fi)
 			}
 		}
+		// the full snapshot comparison is linear in the number of flows: with hundreds of flows it
+		// runs after every scan and advance, and after every 256th record
+		if len(c.Flows) > 64 && o.Kind == "rec" && i%256 != 0 && i != len(c.Ops)-1 {
+			continue
+		}
 		if d := m.CheckState(ap, c.Flows); d != "" {
 			return ev.Failf("after op %d (%s, virtual time %ds): %s", i, o.Kind, m.Now, d)
 		}
